@@ -61,6 +61,9 @@ type Outcome struct {
 	Kind  string `json:"kind"` // ok | err | crash
 	Err   string `json:"err,omitempty"`
 	Fired []Fire `json:"fired,omitempty"`
+	// after the LAST call of the history: processor.Get(name) for every name the history mentions
+	// (hid = the call whose handler Get returns, -1 = nil)
+	Gets []Fire `json:"gets,omitempty"`
 }
 
 // ---------------------------------------------------------------- worker: real gorm
@@ -152,11 +155,34 @@ func runCase(in Input, emit func(Outcome)) {
 		default:
 			panic("bad step kind " + s.Kind)
 		}
+		o := Outcome{Kind: "ok", Fired: fire()}
 		if e != nil {
-			emit(Outcome{Kind: "err", Err: e.Error(), Fired: fire()})
-		} else {
-			emit(Outcome{Kind: "ok", Fired: fire()})
+			o = Outcome{Kind: "err", Err: e.Error(), Fired: fire()}
 		}
+		if i == len(in.Steps)-1 {
+			// processor.Get: the handler registered last under a live name, nil for removed / unknown names
+			seen := map[string]bool{}
+			for _, x := range in.Steps {
+				for _, n := range []string{x.Name, x.Before, x.After, "zz:never"} {
+					if n == "" || seen[n] {
+						continue
+					}
+					seen[n] = true
+					g := Fire{Name: n, Hid: -1}
+					if h := p.Get(n); h != nil {
+						log = []Fire{}
+						h(nil) // a stub: it only appends (name, registering call) to the log
+						if len(log) == 1 && log[0].Name == n {
+							g.Hid = log[0].Hid
+						} else {
+							g.Hid = -2 // not the handler of a callback of that name
+						}
+					}
+					o.Gets = append(o.Gets, g)
+				}
+			}
+		}
+		emit(o)
 	}
 }
 
